@@ -31,6 +31,11 @@ def main():
                         m = re.search(r'"rule": "([^"]+)"', sg)
                         if m:
                             rules.add(m.group(1))
+        if meta.get("obsolete"):
+            rows.append("| %s | %s | %s | %s | %s |" % (
+                mid, meta["property"], "; ".join(meta["files"]).replace("coxeter/", ""),
+                meta["needs_to_manifest"], "obsolete — " + meta["obsolete"]))
+            continue
         rows.append("| %s | %s | %s | %s | %s |" % (
             mid, meta["property"], "; ".join(meta["files"]).replace("coxeter/", ""),
             meta["needs_to_manifest"], (", ".join(caught_by) + " (" + ", ".join(sorted(rules)) + ")")
